@@ -227,9 +227,10 @@ class ContractionTree:
                 "ordered indices corresponding to array axes."
             )
 
-        if not isinstance(next(iter(size_dict.values()), 1), int):
+        if not all(isinstance(v, int) for v in size_dict.values()):
             # make sure we are working with python integers to avoid overflow
-            # comparison errors with inf etc.
+            # comparison errors with inf etc. (n.b. need to check every value
+            # not just the first, the sizes might be of mixed types)
             self.size_dict = {k: int(v) for k, v in size_dict.items()}
         else:
             self.size_dict = size_dict
